@@ -72,7 +72,10 @@ def keep(agent_wt, name, checks, tier):
             os.makedirs(dst, exist_ok=True)
             shutil.copy(patch, dst + '/patch.diff'); shutil.copy(demo, dst + '/demo.py')
             json.dump(rec, open(dst + '/meta.json', 'w'), indent=1)
-        print(json.dumps(rec, indent=1)[:2500])
+        slim = dict(rec); slim['confirmed'] = dict(rec['confirmed'], demo_patched_output=rec['confirmed']['demo_patched_output'][-200:])
+        if 'checks' in slim:
+            slim['checks'] = {c: {k: (v2[:200] if isinstance(v2, str) else v2) for k, v2 in v.items()} for c, v in slim['checks'].items()}
+        print(json.dumps(slim))
         return rec
     finally:
         drop(wt)
